@@ -22,7 +22,7 @@ PNAMES = ['Alpha', 'Beta', 'Gamma', 'Delta']
 
 # signature -> list of natural Python values (two or more distinct ones)
 VALUES = {
-    's': ['', 'x', 'héllo', 'it\'s'],
+    's': ['', 'x', 'héllo', 'it\'s', '\ufeffbom', ' padded '],
     'i': [0, -1, 2**31 - 1, -2**31],
     'u': [0, 7, 2**32 - 1],
     'y': [0, 255, 7],
@@ -124,6 +124,7 @@ class Decl:
                 counts[pn] = counts.get(pn, 0) + 1
         self.collisions = {pn for pn, c in counts.items() if c > 1}
         self.attr = {}             # (iface, pname) -> attribute name
+        self.alias = {}            # (iface, pname) -> second attribute name bound to the same property (derived class)
 
         def build(cname, base, ifs, hosted):
             attrs = {'dbusInterfaces': [
@@ -138,6 +139,12 @@ class Decl:
                 self.attr[(n, pn)] = an
             if base is O.DBusObject and cid % 2:
                 attrs['__len__'] = lambda self_: 0       # a falsy exported object
+            if base is not O.DBusObject and all_base and cid % 2 == 0:
+                # the derived class binds a property the base class already binds, under another attribute name: one DBus
+                # property, two ways to reach it locally - they share the value
+                n_, pn_ = all_base[cid % len(all_base)]
+                attrs['alias_' + pn_] = O.DBusProperty(pn_, n_)
+                self.alias[(n_, pn_)] = 'alias_' + pn_
             if touch_iface and base is not O.DBusObject:
                 def touch(self_):
                     return None
@@ -314,12 +321,22 @@ def run_case(ctx, seed, idx):
                 if r.random() < 0.3:
                     v = foreign_wrapper(r, sig, v)
                 w['history'].append(['assign', list(key), repr(v)])
+                via = d.alias[key] if key in d.alias and r.random() < 0.5 else d.attr[key]
+                if via != d.attr[key]:
+                    w['history'][-1].append('via ' + via)
+                    ctx.count('assignments_via_second_binding')
                 try:
-                    setattr(obj, d.attr[key], v)
+                    setattr(obj, via, v)
                 except Exception as e:
                     ctx.report(classify_assign(d, key, e), 'local assignment raised %r' % e, w, case)
                     return
                 model[key] = v
+                if key in d.alias and not (R.plain_eq(norm(getattr(obj, d.alias[key])), norm(v)) and
+                                           R.plain_eq(norm(getattr(obj, d.attr[key])), norm(v))):
+                    ctx.report('two-bindings-two-values', 'property %s.%s is bound under two attribute names; after assigning '
+                               'through %s they read %r and %r' % (key[0], key[1], via, getattr(obj, d.attr[key]),
+                                                                   getattr(obj, d.alias[key])), w, case)
+                    return
                 sigs = [m for m in peer.take() if m.mtype == RM.SIGNAL]
                 if not check_signals(sigs, key, v, True, 'local assignment'):
                     return
